@@ -1,5 +1,5 @@
 import FmtModel.Arith
-import FmtModel.Props.C09
+import FmtModel.Props.C09g
 /-
   C16 — arithmetic on formatter objects mirrors arithmetic on their values.
 
